@@ -8,8 +8,25 @@ use crate::refm::{self, HealthErr, Req};
 use crate::sim::{Cov, Monitor, Step, Violation};
 use marginfi_type_crate::types::*;
 
+
 pub struct C04 {
     cov: Cov,
+    /// last judged borrow/withdraw: (account, bank, tag, amount, accepted) - for the boundary probe
+    last: Option<(anchor_lang::prelude::Pubkey, Option<anchor_lang::prelude::Pubkey>, &'static str, u64, bool)>,
+}
+
+impl C04 {
+    /// fires when the same action on the same account was accepted at one amount and refused for
+    /// health at another at most 2 native units away (consecutive judgements, main line only)
+    fn boundary_probe(&mut self, acc: anchor_lang::prelude::Pubkey, bank: Option<anchor_lang::prelude::Pubkey>, tag: &'static str, data: &[u8], accepted: bool) {
+        let Some(amount) = data.get(8..16).map(|b| u64::from_le_bytes(b.try_into().unwrap())) else { return };
+        if let Some((a, b, t, x, ok)) = self.last {
+            if a == acc && b == bank && t == tag && ok != accepted && x.abs_diff(amount) <= 2 {
+                self.cov.probe("accept_and_reject_within_2_units");
+            }
+        }
+        self.last = Some((acc, bank, tag, amount, accepted));
+    }
 }
 
 impl Default for C04 {
@@ -29,7 +46,7 @@ impl Default for C04 {
             "health_cache_differs_from_ref",
             "positions_ge_4",
         ]);
-        C04 { cov }
+        C04 { cov, last: None }
     }
 }
 
@@ -74,6 +91,9 @@ impl Monitor for C04 {
                             s.is_fork as u8
                         ));
                         self.cov.probe("accepted");
+                        if !s.is_fork {
+                            self.boundary_probe(acc_key, super::ix_bank(ix), ix.tag, &ix.data, true);
+                        }
                         if n >= 4 {
                             self.cov.probe("positions_ge_4");
                         }
@@ -159,6 +179,9 @@ impl Monitor for C04 {
             if e.code == codes::RISK_ENGINE_INIT_REJECTED {
                 if let Ok(h) = refm::health(fs, &post, Req::Init, s.clock) {
                     self.cov.probe("rejected_for_health");
+                    if !s.is_fork {
+                        self.boundary_probe(acc_key, super::ix_bank(ix), ix.tag, &ix.data, false);
+                    }
                     self.cov.eval(format!(
                         "{}|rej|n{}|z{}|f{}",
                         ix.tag,
